@@ -98,6 +98,13 @@ Proof.
   rewrite Hmsg, Hd. reflexivity.
 Qed.
 
+(* the router's own application (if any) is not the addressee: the destination network is not the local adapter's,
+   or it is and the address differs *)
+Definition not_for_me (la : adapter) (d : N) (dm : mac) : bool :=
+  if optN_eqb (Some d) (a_net la)
+  then match a_mac la with Some lm => negb (mac_eqb dm lm) | None => false end
+  else true.
+
 (* ---- the last router: exactly one copy, on the destination network, link-addressed to the station, no DADR *)
 Lemma last_router_delivers : forall n i ai inet src dst p d dm j la,
   nth_adapter n i = Some ai -> nth_adapter n (local_idx n) = Some la ->
@@ -106,7 +113,7 @@ Lemma last_router_delivers : forall n i ai inet src dst p d dm j la,
   n_msg p = None -> n_dadr p = Some (DStation d dm) -> n_hop p <> 0 ->
   (forall snet sm, n_sadr p = Some (snet, sm) -> find_net n (Some snet) = None) ->
   find_net n (Some d) = Some j -> j <> i ->
-  optN_eqb (Some d) (a_net ai) = false -> optN_eqb (Some d) (a_net la) = false ->
+  optN_eqb (Some d) (a_net ai) = false -> not_for_me la d dm = true ->
   process_npdu n i src dst p =
     (learned n ai src p,
      [Fwd j (LStation dm) (mkNpdu None (Some (fwd_sadr inet src p)) (n_hop p - 1) None (n_data p))]).
@@ -118,13 +125,17 @@ Proof.
                    | None => false end = false).
   { destruct (n_sadr p) as [[snet sm]|] eqn:Es; [|reflexivity]. rewrite (Hs snet sm eq_refl). reflexivity. }
   rewrite Hspoof. fold (learned n ai src p).
-  rewrite Hd, Hmsg. cbv iota beta. rewrite Hnai, Hnla. cbn [andb].
-  unfold forward.
+  rewrite Hd, Hmsg. cbv iota beta. rewrite Hnai.
   assert (Er : is_router (learned n ai src p) = true) by (unfold is_router; rewrite learned_adapters; exact Hr).
-  rewrite Er. cbn [negb].
-  destruct (N.eqb_spec (n_hop p) 0); [contradiction|]. rewrite Hi.
   assert (Efn : find_net (learned n ai src p) (Some d) = Some j) by (unfold find_net; rewrite learned_adapters; exact Hfn).
-  rewrite Efn. destruct (Nat.eqb_spec j i); [contradiction|]. rewrite Hmsg. reflexivity.
+  assert (Hfw : forward (learned n ai src p) i ai src p (DStation d dm) =
+                [Fwd j (LStation dm) (mkNpdu None (Some (fwd_sadr inet src p)) (n_hop p - 1) None (n_data p))]).
+  { unfold forward. rewrite Er. cbn [negb]. destruct (N.eqb_spec (n_hop p) 0); [contradiction|]. rewrite Hi, Efn.
+    destruct (Nat.eqb_spec j i); [contradiction|]. rewrite Hmsg. reflexivity. }
+  unfold not_for_me in Hnla. destruct (optN_eqb (Some d) (a_net la)).
+  - destruct (a_mac la) as [lm|]; [|discriminate]. destruct (mac_eqb dm lm); [discriminate|].
+    cbn [negb andb]. rewrite Hfw. reflexivity.
+  - cbn [andb]. rewrite Hfw. reflexivity.
 Qed.
 
 (* ---- the addressed station: hands the payload up once, showing the originator *)
